@@ -115,6 +115,12 @@ class StubAssertion:
     def __repr__(self):
         return f"StubAssertion({self.aid})"
 
+    def __eq__(self, other):   # two builds of the same spec are equal traces (dataclass equality)
+        return isinstance(other, StubAssertion) and other.aid == self.aid
+
+    def __hash__(self):
+        return hash(self.aid)
+
 
 def build_trace(spec):
     """A fresh real ExecutionTrace holding exactly the spec (insertion orders preserved).
